@@ -46,7 +46,9 @@ for default in ("".join(["sho", "uld"]), "".join(["mu", "st"])):      # equal to
 EXTRA = ["o:c", "n:d", "o.y:c", "t.raw:b", "n:(m:g)", "n.m:g", "o:(x:c)", "o:(y:c)", "q.r:s", "n:(x:d OR z)", "n.x.raw:d",
          "o:[1 TO 2]", "n:\"p q\"", "n:(x:[1 TO 2])", "o.x:c~2", "-1", "t:[-1 TO 5]", "n:d^2", "(o:c)", "NOT n:d",
          # texts that mean something to str.format / %: they are data
-         "o:\"{x}\"", "n:\"a {} b\"", "n:a\\{1\\}", "o:\"%s %(x)s\"", "n:(m:\"{0}\")", "q.r:\"}\"", "o.p:\"{\"", "o.p.q:x", "o:(p:(q:x))", "t.k:v", "t:(raw:v)"]
+         "o:\"{x}\"", "n:\"a {} b\"", "n:a\\{1\\}", "o:\"%s %(x)s\"", "n:(m:\"{0}\")", "q.r:\"}\"", "o.p:\"{\"", "o.p.q:x", "o:(p:(q:x))", "t.k:v", "t:(raw:v)",
+         # what the term looks like does not matter: wildcards, the lone star, ranges with wildcard bounds
+         "n:jo*", "n:*", "o:te?t", "o:*", "n:[a* TO b*]", "q.r:jo*", "o.p:?", "n:(m:*)", "n.x:*", "t:*"]
 
 
 def queries(max_leaves):
